@@ -461,6 +461,14 @@ func init() {
 		x.thSwap("A", []int{0}, "")
 		x.thMelt("B", 0, []int{0})
 	}, oracle: oracleC01([]int{0})})
+	addScn(&schedScn{name: "S10-melt-poll-swap", prop: "C01", setup: func(x *schedX) {
+		// a quote poll / state check arriving while the melt is between marking its inputs pending and the backend
+		// knowing the payment (the backend answers 'no such payment'), racing a swap of the same proof
+		must(x.w, "fund|8,8", "meltq|4")
+		x.thMelt("A", 0, []int{0})
+		x.thPollMelt("B", 0)
+		x.thSwap("C", []int{0}, "")
+	}, oracle: oracleC01([]int{0})})
 	addScn(&schedScn{name: "S9-two-input-overlap", prop: "C01", fee: 100, setup: func(x *schedX) {
 		must(x.w, "fund|4,4,4", "meltq|4")
 		x.thSwap("A", []int{0, 1}, "")
